@@ -228,6 +228,11 @@ class C03(props.Prop):
             if len(a) > 8:
                 fp_of_step.setdefault((a[7], a[6]), []).append((a[0], a[8]))
         adopted_fps = set()
+        if any(w.get('fallback') for w in writes):
+            # the adopted inputs are known from the file only (write probe
+            # not in place): equal token sequences need not be equal inputs
+            v.probes['rule_skipped.revisit'] += 1
+            return False
         for k, w in enumerate(writes, 1):
             d = w['sdig']
             fp = w.get('ddmin_task')
